@@ -657,23 +657,31 @@ class DefaultCodec(Codec):
                     parent_index = merge_parent._output_keys
                     # noinspection PyProtectedMember
                     parent_data_source = merge_parent._parent_data_source
-                    # The parent may have been stored in several places since (also in the
-                    # staging directory of an on-disk partition that holds it as a value, which
-                    # goes away with that partition): prefer what is stored where this one goes
-                    for stored_source, stored_index in reversed(
-                        getattr(merge_parent, "_stored_indexes", [])
-                    ):
-                        if self._same_place(stored_source, data_source):
-                            parent_index = stored_index
-                            parent_data_source = stored_source
-                            break
                 else:
                     raise IOError(
                         "Could not merge partitions: parent is not "
                         "a PicklePartition or has never been serialized"
                     )
-                for k, v in parent_index.items():
-                    index[k] = self._inherit(data_source, parent_data_source, v)
+                # The parent may have been stored in several places (also in the staging
+                # directory of an on-disk partition that holds it as a value, which goes away
+                # with that partition): prefer what is stored where this one goes, then the
+                # other places, the latest first, until one can still be read
+                places = [(parent_data_source, parent_index)] + list(
+                    reversed(getattr(merge_parent, "_stored_indexes", []))
+                )
+                places.sort(key=lambda p: not self._same_place(p[0], data_source))
+                for n, (stored_source, stored_index) in enumerate(places):
+                    try:
+                        inherited = {
+                            k: self._inherit(data_source, stored_source, v)
+                            for k, v in stored_index.items()
+                        }
+                    except OSError:
+                        if n + 1 == len(places):
+                            raise
+                        continue
+                    index.update(inherited)
+                    break
 
             if isinstance(obj, DefaultCodec.PicklePartition):
                 # A partition that was read back from storage and is returned once more (by
